@@ -153,6 +153,8 @@ void harness(void) {
 #elif defined(TOP_MAP)
   size_t end0 = top0->metadata.map_metadata.end_ptr;
   cbor_item_t *lastkey0 = end0 ? ((struct cbor_pair *)top0->data)[end0 - 1].key : NULL;
+  unsigned char *mapdata0 = top0->data;
+  size_t mapalloc0 = top0->metadata.map_metadata.allocated;
 #endif
   _cbor_builder_append__top(item, ctx);
 
@@ -205,6 +207,9 @@ void harness(void) {
   } else {
     __CPROVER_assert(!def ? g_refused : 1, "C05,C06: creation_failed on an indefinite map only after a refused request");
     __CPROVER_assert(top0->metadata.map_metadata.end_ptr == end0 && g_free_calls >= 1, "C06,C04: refused key: map unchanged, the rejected key released (no reference left behind)");
+    __CPROVER_assert(top0->data == mapdata0 && top0->metadata.map_metadata.allocated == mapalloc0 &&
+                     (end0 == 0 || ((struct cbor_pair *)top0->data)[end0 - 1].key == lastkey0),
+                     "C12,C06: a refused growth leaves the pair storage where and as it was");
   }
   if (!ctx->creation_failed || g_b.append_calls == 1) {
     if (def && sub0 == 1)
